@@ -8,6 +8,9 @@ CONSTANTS
   Styles = {"split", "coro", "loop", "block", "poll"}
   MaxPub = 4
   MaxBatch = 2
+  MinBatch = 1
+  PubClosed = FALSE
+  MaxAhead = 0
   MaxJoin = 3
   AtPos = {0, 1, 2, 3, 4, 5}
   MaxKick = 1
